@@ -462,11 +462,20 @@ let handle (fields : string list) : string * string =
           "started:" ^ ks k.k_paa_enc ^ ks k.k_paa_sign ^ ks k.k_user_enc ^ ks k.k_session ^ ks k.k_session_enc) in
     (m, if m = impl then "ok"
         else if impl = "started-without-tls" then "fail:serves-without-tls-although-tls-is-not-disabled"
-        else if String.length impl > 16 && String.sub impl 0 16 = "started-serving:" && m <> "fatal"
-        then "fail:serves-mechanisms-other-than-the-configured-ones"
         else if String.length impl >= 7 && String.sub impl 0 7 = "started" && m = "fatal" then "fail:unsafe-configuration-started"
         else if impl = "fatal" then "fail:safe-configuration-refused"
         else "fail:key-substitution")
+  | "serving" :: mech :: impl :: [] ->
+    (* what a started instance serves (OpenID routes, challenges of the gateway endpoint) *)
+    let r = { r_openid = mech.[0] = '1'; r_kerberos = mech.[1] = '1'; r_local = mech.[2] = '1'; r_ntlm = mech.[3] = '1';
+              r_tls_disable = mech.[4] = '1'; r_hostsel = []; r_querykey_len = n_of_int 0; r_hosts = n_of_int 1;
+              r_keytab_set = mech.[1] = '1'; r_tokenauth = true; r_enable_usertoken = false;
+              r_paa_enc_len = n_of_int 0; r_paa_sign_len = n_of_int 0; r_user_enc_len = n_of_int 0;
+              r_session_len = n_of_int 0; r_session_enc_len = n_of_int 0 } in
+    let s = Model.serves r in
+    let m = Printf.sprintf "openid=%s basic=%s ntlm=%s negotiate=%s" (b01 s.sv_openid_routes) (b01 s.sv_basic) (b01 s.sv_ntlm)
+        (b01 s.sv_negotiate) in
+    (m, if m = impl then "ok" else "fail:serves-mechanisms-other-than-the-configured-ones")
   | "keyshare" :: len :: impl :: [] ->
     (* five keys of the same configured length on two instances *)
     let shared = (Model.subst_key (n_of_int (int_of_string len)) = Configured) in
